@@ -524,7 +524,7 @@ func (r *Run) checkLinearizable(o *batchOutcome) {
 		r.W.Count.Inc("porcupine.illegal")
 		prop := "C02"
 		switch r.Sc.Prop {
-		case "C01", "C06", "C07", "C09", "C11", "C14", "C15", "C18", "C20":
+		case "C01", "C06", "C07", "C09", "C11", "C14", "C15", "C16", "C18", "C20":
 			// the batch was generated as this property's conflict scenario
 			prop = r.Sc.Prop
 		}
@@ -881,6 +881,29 @@ func genBatch(prop string, g *Gen, m *Model, rng *SplitMix) []Cmd {
 		}
 		if len(cmds) < 3 {
 			cmds = append(cmds, mutation())
+		}
+	case "C16":
+		// replies that are computed from a read of the store: a competitor
+		// changing what they report while the command is under way
+		switch rng.Intn(3) {
+		case 0:
+			cmds = []Cmd{{Op: "prune", Yes: true}}
+			if t, ok := g.liveOf(m, func(it *MItem) bool { return !it.IsEpic && finished(it.State) }); ok {
+				cmds = append(cmds, Cmd{Op: "set", ID: t, State: sp("todo")})
+			}
+			if t, ok := g.liveOf(m, func(it *MItem) bool { return !it.IsEpic && it.State == "todo" && it.ClaimedBy == "" }); ok {
+				cmds = append(cmds, Cmd{Op: "set", ID: t, State: sp(g.oneOf("done", "canceled"))})
+			}
+			if rng.Chance(1, 2) {
+				cmds = append(cmds, Cmd{Op: "new_task", Mode: "json", Title: sp(g.text("title")), State: sp("done")})
+			}
+			if len(cmds) < 3 {
+				cmds = append(cmds, mutation())
+			}
+		default:
+			for n := 2 + rng.Intn(3); n > 0; n-- {
+				cmds = append(cmds, mutation())
+			}
 		}
 	case "C10":
 		// a lock holder is stalled inside its lock section while the commands
